@@ -167,16 +167,17 @@ impl<'a, N: Normalizer> XmlSerializer<'a, N> {
                 }
             }
             Text(text) => {
-                // a text node can be a child of an element or document
-                let parent = self.xot.parent(node).unwrap();
-
-                let is_cdata_element = if let Some(element) = self.xot.element(parent) {
-                    self.parameters
-                        .cdata_section_elements
-                        .contains(&element.name())
-                } else {
-                    false
-                };
+                // a text node can be a child of an element or document, or
+                // be serialized on its own without a parent
+                let is_cdata_element = self
+                    .xot
+                    .parent(node)
+                    .and_then(|parent| self.xot.element(parent))
+                    .is_some_and(|element| {
+                        self.parameters
+                            .cdata_section_elements
+                            .contains(&element.name())
+                    });
 
                 if is_cdata_element {
                     OutputToken {
